@@ -1037,6 +1037,165 @@ def c_qtree(q):
 
 
 # ----------------------------------------------------------------------------------------------
+# CSV cases (second correspondence stage; model coq/Model/C14Csv.v)
+# ----------------------------------------------------------------------------------------------
+HEADER_CSV = ("From DV Require Import Model.PyPrims Model.C14Model Model.C14Csv.\n"
+              "From Coq Require Import ZArith QArith. Open Scope Z_scope.")
+
+LABEL_ALPHABET = "ABCabcXYZxyz0123456789_-.# "
+
+
+def gen_label(rng, used):
+    while True:
+        n = rng.randint(1, 6)
+        s = "".join(rng.choice(LABEL_ALPHABET) for _ in range(n)).strip(" ")
+        if s and s not in used:
+            return s
+
+
+def gen_csv_case(rng, tier):
+    n = rng.choice([1, 2, 2, 3, 3, 4, 5, 6, 8])
+    t = trees.gen_tree(rng, max(n, 2) if rng.random() < 0.95 else 1,
+                       lengths=rng.choice(["dyadic", "positive", "mixed"]), unifurcations=rng.choice([0.0, 0.2]))
+    nl = len(trees.leaves(t))
+    labels = []
+    for _ in range(nl):
+        labels.append(gen_label(rng, labels))
+    r = rng.random()
+    if nl >= 2 and r < 0.08:
+        labels[1] = labels[0].swapcase() if labels[0].swapcase() != labels[0] else labels[0] + "x"
+    damage = rng.choice(["none"] * 6 + ["drop-cell", "bad-number", "dup-label", "spaces", "drop-row", "drop-column",
+                                         "blank-line-end", "case-label"])
+    return {"kind": "csv", "tree": t, "labels": labels, "delim": rng.choice([",", ",", "\t", ";", "|"]),
+            "normalize": rng.random() < 0.4, "weighted": rng.random() < 0.8, "damage": damage,
+            "seed": rng.randrange(10 ** 9)}
+
+
+def observe_csv(case):
+    import dendropy
+    t = case["tree"]
+    nl = len(trees.leaves(t))
+    ns = dendropy.TaxonNamespace()
+    objs = [ns.new_taxon(l) for l in case["labels"]]
+    tree, _ = trees.build_dendropy(t, objs, is_rooted=True, namespace=ns)
+    pdm = tree.phylogenetic_distance_matrix()
+    tix = {id(o): i for i, o in enumerate(objs)}
+    order = [tix[id(x)] for x in pdm._mapped_taxa]
+    obs = {"order": order}
+    out = io.StringIO()
+    w = res_call(lambda: pdm.write_csv(out, is_weighted_edge_distances=case["weighted"],
+                                       is_normalize_by_tree_size=case["normalize"], delimiter=case["delim"]) or 0)
+    obs["write"] = w
+    obs["nf_zero"] = bool(case["normalize"] and (pdm._tree_length == 0 if case["weighted"] else pdm._num_edges == 0))
+    if w[0] != "Ok":
+        return obs
+    text = out.getvalue()
+    lines = text.split("\r\n")
+    if lines and lines[-1] == "":
+        lines.pop()
+    obs["written"] = lines
+    dm, nf = pdm._get_distance_matrix_and_normalization_factor(case["weighted"], case["normalize"])
+    obs["cells"] = [["{}".format(dm[objs[a]][objs[b]] / nf) if (objs[a] in dm and objs[b] in dm[objs[a]]) else ""
+                     for b in range(nl)] for a in range(nl)]
+    obs["values"] = [[fr_json(fr(dm[objs[a]][objs[b]] / nf)) if (objs[a] in dm and objs[b] in dm[objs[a]]) else None
+                      for b in range(nl)] for a in range(nl)]
+    # the text handed to the reader
+    rng = random.Random(case["seed"])
+    d = case["delim"]
+    rows = [l.split(d) for l in lines]
+    dmg = case["damage"]
+    if len(rows) >= 2:
+        if dmg == "drop-cell":
+            r = rng.randrange(1, len(rows))
+            rows[r] = rows[r][:-1]
+        elif dmg == "bad-number" and len(rows[1]) >= 2:
+            r = rng.randrange(1, len(rows))
+            rows[r][rng.randrange(1, len(rows[r]))] = rng.choice(["x", "1.2.3", "", "1e"])
+        elif dmg == "dup-label" and len(rows) >= 3:
+            rows[2][0] = rows[1][0]
+        elif dmg == "case-label" and len(rows) >= 3:
+            rows[2][0] = rows[1][0].swapcase()
+        elif dmg == "spaces":
+            rows = [[" " * rng.randint(0, 2) + c + " " * rng.randint(0, 2) for c in r] for r in rows]
+        elif dmg == "drop-row":
+            rows = rows[:-1]
+        elif dmg == "drop-column":
+            rows = [r[:-1] for r in rows]
+    tlines = [d.join(r) for r in rows]
+    if dmg == "blank-line-end":
+        tlines.append(" ")
+    obs["text"] = tlines
+    if any(ch in l for l in tlines for ch in '"\r\n'):
+        obs["skip"] = True
+        return obs
+
+    def read():
+        p2 = dendropy.PhylogeneticDistanceMatrix.from_csv(io.StringIO("\r\n".join(tlines) + "\r\n"), delimiter=d)
+        taxa = list(p2.taxon_namespace)
+        tab = []
+        for a in taxa:
+            row = []
+            for b in taxa:
+                try:
+                    row.append(fr_json(fr(p2._taxon_phylogenetic_distances[a][b])))
+                except KeyError:
+                    row.append(None)
+            tab.append(row)
+        return [[x.label for x in taxa], tab, sorted(x.label for x in p2._mapped_taxa)]
+    obs["read"] = res_call(read)
+    return obs
+
+
+def oracle_csv(case, obs):
+    if obs["write"][0] != "Ok":
+        if obs["nf_zero"]:
+            return None     # normalising by a zero tree length: ZeroDivisionError
+        return ("write_csv raised %s" % obs["write"][1], "csv-write-raises")
+    if obs.get("skip"):
+        return None
+    if case["damage"] in ("none", "spaces", "blank-line-end"):
+        labels = [case["labels"][i] for i in obs["order"]]
+        if len(set(l.lower() for l in labels)) != len(labels):
+            return None     # labels equal up to case: from_csv's namespace is case-insensitive
+        r = obs["read"]
+        if r[0] != "Ok":
+            return ("a matrix written by write_csv could not be read back: %s" % r[1], "csv-roundtrip")
+        names, tab, mapped = r[1]
+        if names != labels or mapped != sorted(labels):
+            return ("taxa read back from CSV are %s, written were %s" % (names, labels), "csv-roundtrip-taxa")
+        for i, a in enumerate(obs["order"]):
+            for j, b in enumerate(obs["order"]):
+                if tab[i][j] != obs["values"][a][b]:
+                    return ("distance (%s,%s) read back from CSV is %s, written was %s"
+                            % (labels[i], labels[j], tab[i][j], obs["values"][a][b]), "csv-roundtrip-value")
+    return None
+
+
+def c_str(s):
+    return clist([cz(ord(ch)) for ch in s])
+
+
+def to_coq_csv(case, obs):
+    if obs["write"][0] != "Ok" or obs.get("skip"):
+        return "(mkCsvCase 44 [] [] [] [] [[]] [[]] (Ok ([], [])))"
+    strs = set(case["labels"])
+    for l in obs["text"]:
+        for c in l.split(case["delim"]):
+            strs.add(c.strip(" "))
+    lower = clist([cpair(c_str(x), c_str(x.lower())) for x in sorted(strs)])
+    r = obs["read"]
+    if r[0] == "Ok":
+        rd = "(Ok (%s, %s))" % (clist([c_str(x) for x in r[1][0]]),
+                                clist([clist([copt(v, c_q) for v in row]) for row in r[1][1]]))
+    else:
+        rd = "(Err %s)" % r[1]
+    return "(mkCsvCase %s %s %s %s %s %s %s %s)" % (
+        cz(ord(case["delim"])), lower, clist([c_str(x) for x in case["labels"]]), zl(obs["order"]),
+        clist([clist([c_str(c) for c in row]) for row in obs["cells"]]),
+        clist([c_str(l) for l in obs["written"]]), clist([c_str(l) for l in obs["text"]]), rd)
+
+
+# ----------------------------------------------------------------------------------------------
 # dispatch
 # ----------------------------------------------------------------------------------------------
 
@@ -1172,5 +1331,13 @@ def run(tier, seed, replay=None):
     core.corr_stage(ctx, cases, observe, to_coq, HEADER, "case_ok", oracle=oracle, show_fn="case_show",
                     nontrivial=nontrivial, search=search, shard=(60 if tier == "quick" else 250),
                     sample_fn=lambda c, o: {"kind": c["kind"], "tree": trees.newick(c["tree"]) if "tree" in c else None})
+    ncsv = 120 if tier == "quick" else 1500
+    csv_cases = [gen_csv_case(ctx.rng, tier) for _ in range(ncsv)]
+    for c in csv_cases:
+        ctx.count("kind:csv")
+        ctx.count("csv-damage:" + c["damage"])
+    core.corr_stage(ctx, csv_cases, observe_csv, to_coq_csv, HEADER_CSV, "csv_case_ok", oracle=oracle_csv,
+                    nontrivial=lambda c, o: len(o.get("written", [])) >= 3, shard=(60 if tier == "quick" else 250),
+                    label="csv", sample_fn=lambda c, o: {"kind": "csv", "labels": c["labels"], "damage": c["damage"]})
     return ctx.finish(level="proof",
                       rule="random cases: 40% distance matrices of random rose trees (1-30 leaves, polytomies, unifurcations, dyadic/zero/None lengths, all pairs, summaries under filters/options), 30% Tree.mrca / treemeasure.patristic_distance histories (absent/current/stale encoding, three argument forms, start_node, refresh), 30% NJ/UPGMA runs (additive, ultrametric, arbitrary, unweighted, through CSV, CSV text); thorough adds every rose-tree shape with <=5 leaves; non-trivial = >=3 taxa (and >=2 queries for mrca histories); distinct by full case content")
